@@ -56,6 +56,8 @@ func startNode(dir string, fast bool) (*vnode, error) {
 	if err := outputstream.DeleteOldDatabases(dir); err != nil {
 		return nil, err
 	}
+	// main() sets the message offset from -robustirc_message_offset (this is its default)
+	robust.MessageOffset = 4648398125000000000
 	n := &vnode{dir: dir, password: verifPassword, fast: fast}
 	ircServer = ircserver.NewIRCServer(*network, time.Now())
 	var err error
